@@ -81,3 +81,43 @@ pub(crate) fn push_frame_at(p: &mut Program, line: u64, tok: usize) {
         variables: Variables::default(),
     });
 }
+/// register a function definition (as DEF would) whose body starts at (line, tok)
+pub(crate) fn add_function(p: &mut Program, name: &str, arg: &str, line: u64, tok: usize) {
+    p.functions.insert(
+        crate::verif_support::sym(name),
+        FunctionDefinition { arguments: vec![crate::verif_support::sym(arg)], location: NumberedProgramLocation::new(line, tok) },
+    );
+}
+pub(crate) fn loop_symbol_len(p: &Program, i: usize) -> usize {
+    p.loop_stack[i].symbol.as_str().len()
+}
+pub(crate) fn loops_pairwise_distinct(p: &Program) -> bool {
+    let mut a = 0;
+    while a < p.loop_stack.len() {
+        let mut b = a + 1;
+        while b < p.loop_stack.len() {
+            if p.loop_stack[a].symbol == p.loop_stack[b].symbol {
+                return false;
+            }
+            b += 1;
+        }
+        a += 1;
+    }
+    true
+}
+/// push `n` open loops with pairwise distinct two-letter names (AA, AB, ...), none of them `skip`
+pub(crate) fn push_distinct_loops(p: &mut Program, n: usize) {
+    let mut k = 0;
+    while k < n {
+        let mut s = String::new();
+        s.push((b'A' + (k / 26) as u8) as char);
+        s.push((b'A' + (k % 26) as u8) as char);
+        p.loop_stack.push(LoopInfo {
+            location: ProgramLocation { line: ProgramLine::Line(10), token_index: 0 },
+            symbol: std::rc::Rc::new(s).into(),
+            to_value: 1.0,
+            step_value: 1.0,
+        });
+        k += 1;
+    }
+}
